@@ -45,6 +45,7 @@ def gen_cases(rng, tier, rnd):
         elif kind == 'pda':
             a = {**genpda.ambiguous_stack_pda(rng), 'keep_gamma': True} if rng.random() < 0.08 else genpda.abstract_pda(rng)
             c['spec'], c['rank'] = genfa.rename(a, rng)
+            c['spec']['dd'] = rng.random() < 0.7        # else a plain dict that has only the keys of the transitions
             steps = []
             for _ in range(3):
                 nn = rng.choice([0, 0, 1, 1, 2, 3, 4])
